@@ -1,7 +1,752 @@
 package main
 
-import "fmt"
+// search: evaluates property C12 itself on the implementation, against the generator's intended
+// segmentation, the delimiter rules of the property, and the harness's own box scanner.
 
-func cmdSearch(seed uint64, n int)            { fmt.Fprintln(out, "EVALS\t0") }
-func cmdEmit(seed uint64, n int, dir string) {}
-func cmdVerify(dir string)                    { fmt.Fprintln(out, "EVALS\t0") }
+import (
+	"bytes"
+	"encoding/binary"
+	"fmt"
+	"os"
+	"path/filepath"
+	"sort"
+	"strings"
+
+	"github.com/Eyevinn/mp4ff/mp4"
+	"verifharness/hx"
+)
+
+var evals int
+
+func fail(site, class, witness, desc string) {
+	fmt.Fprintf(out, "FAIL\t%s\t%s\t%s\t%s\n", site, class, witness, desc)
+}
+
+// expected segmentation by the delimiter rules of the property (independent of the code):
+// styp boxes delimit if present; otherwise a top-level sidx; otherwise the tfra (ISM flag and mfra present);
+// otherwise every fragment (start-on-moof) or one single segment.
+// Returns for every fragment (moof order) its expected segment number, and the rule applied.
+func expectedSegments(l *layout) (segOfFrag []int, rule string) {
+	hasStyp, hasSidx, hasMfra := false, false, false
+	firstMedia := -1
+	for i, e := range l.els {
+		switch e.kind {
+		case 's':
+			hasStyp = true
+		case 'x':
+			if firstMedia < 0 && !hasStyp {
+				hasSidx = true
+			}
+		case 'r':
+			hasMfra = e.mfro && len(e.tfras) > 0
+		case 'e', 'o':
+			if firstMedia < 0 {
+				firstMedia = i
+			}
+		}
+	}
+	var frags []*elem
+	for _, e := range l.els {
+		if e.kind == 'o' {
+			frags = append(frags, e)
+		}
+	}
+	segOfFrag = make([]int, len(frags))
+	switch {
+	case hasStyp || hasSidx || (hasMfra && l.ism):
+		// the generator made these delimiters agree with the intended segmentation
+		for i, e := range frags {
+			segOfFrag[i] = e.seg
+		}
+		rule = "delimiter"
+		if hasMfra && l.ism && !hasStyp && !hasSidx {
+			rule = "tfra"
+		}
+	case l.som:
+		for i := range frags {
+			segOfFrag[i] = i
+		}
+		rule = "start-on-moof"
+	default:
+		rule = "single"
+	}
+	return segOfFrag, rule
+}
+
+type sidxParsed struct {
+	pos, size uint64
+	version   byte
+	refID     uint32
+	timescale uint32
+	ept, fo   uint64
+	refs      []ref
+}
+
+// own sidx parser (ISO/IEC 14496-12 8.16.3)
+func parseSidx(b []byte, pos uint64) sidxParsed {
+	p := sidxParsed{pos: pos, size: uint64(len(b))}
+	p.version = b[8]
+	p.refID = binary.BigEndian.Uint32(b[12:])
+	p.timescale = binary.BigEndian.Uint32(b[16:])
+	o := 20
+	if p.version == 0 {
+		p.ept = uint64(binary.BigEndian.Uint32(b[o:]))
+		p.fo = uint64(binary.BigEndian.Uint32(b[o+4:]))
+		o += 8
+	} else {
+		p.ept = binary.BigEndian.Uint64(b[o:])
+		p.fo = binary.BigEndian.Uint64(b[o+8:])
+		o += 16
+	}
+	n := int(binary.BigEndian.Uint16(b[o+2:]))
+	o += 4
+	for i := 0; i < n; i++ {
+		w := binary.BigEndian.Uint32(b[o:])
+		p.refs = append(p.refs, ref{typ: uint8(w >> 31), size: w & 0x7fffffff, dur: binary.BigEndian.Uint32(b[o+4:])})
+		o += 12
+	}
+	return p
+}
+
+func (l *layout) witness() string {
+	var sb strings.Builder
+	for _, e := range l.els {
+		sb.WriteByte(e.kind)
+	}
+	return fmt.Sprintf("%s ism=%v som=%v boxes=%s file=%s", l.desc, l.ism, l.som, sb.String(), hx.Hex(l.bytes()))
+}
+
+func shortWitness(l *layout) string {
+	w := l.witness()
+	if len(w) > 12000 {
+		w = w[:12000] + "..."
+	}
+	return w
+}
+
+// checkPartition: the decoded file's segments/fragments vs the expectation. Returns false when the
+// later checks make no sense.
+func checkPartition(l *layout, f *mp4.File) bool {
+	okAll := true
+	idx := make(map[mp4.Box]int)
+	for i, c := range f.Children {
+		idx[c] = i
+	}
+	if len(f.Children) != len(l.els) {
+		fail("DecodeFile", "children-count", shortWitness(l), fmt.Sprintf("%d top-level boxes decoded, %d in the file", len(f.Children), len(l.els)))
+		return false
+	}
+	segOfFrag, rule := expectedSegments(l)
+	// every moof/mdat in exactly one fragment of one segment, in order
+	var seen []int
+	fragNo := 0
+	for si, s := range f.Segments {
+		for _, fr := range s.Fragments {
+			nmoof, nmdat := 0, 0
+			for k, c := range fr.Children {
+				t := idx[c]
+				switch l.els[t].kind {
+				case 'o':
+					nmoof++
+					seen = append(seen, t)
+					if k+1 >= len(fr.Children) || l.els[idx[fr.Children[k+1]]].kind != 'd' {
+						fail("File.AddChild", "moof-without-mdat", shortWitness(l), "a fragment's moof is not directly followed by its mdat")
+						okAll = false
+					}
+				case 'd':
+					nmdat++
+					seen = append(seen, t)
+				}
+			}
+			if nmoof != 1 || nmdat != 1 {
+				if nmoof == 0 && nmdat == 0 {
+					fail("File.startSegmentIfNeeded", "fragment-without-moof/"+rule, shortWitness(l),
+						fmt.Sprintf("segment %d holds a fragment with no moof/mdat (emsg only)", si))
+				} else {
+					fail("File.AddChild", "fragment-shape", shortWitness(l), fmt.Sprintf("fragment with %d moof and %d mdat", nmoof, nmdat))
+				}
+				okAll = false
+				continue
+			}
+			if fragNo < len(segOfFrag) && segOfFrag[fragNo] != si {
+				fail("File.startSegmentIfNeeded", "segment-of-fragment/"+rule+flagsSuffix(l), shortWitness(l),
+					fmt.Sprintf("fragment %d is in segment %d, the delimiters (%s) put it in segment %d", fragNo, si, rule, segOfFrag[fragNo]))
+				okAll = false
+			}
+			fragNo++
+		}
+		if len(s.Fragments) == 0 {
+			fail("File.startSegmentIfNeeded", "empty-segment/"+rule+flagsSuffix(l), shortWitness(l), fmt.Sprintf("segment %d has no fragment", si))
+			okAll = false
+		}
+	}
+	var want []int
+	for i, e := range l.els {
+		if e.kind == 'o' || e.kind == 'd' {
+			want = append(want, i)
+		}
+	}
+	if fmt.Sprint(seen) != fmt.Sprint(want) {
+		fail("File.AddChild", "partition", shortWitness(l), fmt.Sprintf("moof/mdat boxes in fragments %v, in the file %v", seen, want))
+		okAll = false
+	}
+	// StartPos of segments and fragments vs own scanner
+	for si, s := range f.Segments {
+		var first mp4.Box
+		switch {
+		case s.Styp != nil:
+			first = s.Styp
+		case len(s.Fragments) > 0 && len(s.Fragments[0].Children) > 0:
+			first = s.Fragments[0].Children[0]
+		}
+		if first != nil && l.els[idx[first]].pos != s.StartPos {
+			fail("File.AddChild", "segment-startpos", shortWitness(l), fmt.Sprintf("segment %d StartPos %d, its first box is at %d", si, s.StartPos, l.els[idx[first]].pos))
+			okAll = false
+		}
+		for fi, fr := range s.Fragments {
+			if len(fr.Children) > 0 && l.els[idx[fr.Children[0]]].pos != fr.StartPos {
+				fail("File.AddChild", "fragment-startpos", shortWitness(l), fmt.Sprintf("segment %d fragment %d StartPos %d, first box at %d", si, fi, fr.StartPos, l.els[idx[fr.Children[0]]].pos))
+				okAll = false
+			}
+			if fr.Moof != nil && fr.Moof.StartPos != l.els[idx[fr.Moof]].pos {
+				fail("File.AddChild", "moof-startpos", shortWitness(l), "moof.StartPos differs from the scanned position")
+				okAll = false
+			}
+		}
+	}
+	return okAll
+}
+
+func flagsSuffix(l *layout) string {
+	if l.som {
+		return "+som"
+	}
+	return ""
+}
+
+// canonical layout: ftyp moov sidx* (styp? sidx* (emsg* moof mdat)+)* mfra?  — what segment-mode encoding can reproduce
+func canonical(l *layout) bool {
+	st := 0
+	for i, e := range l.els {
+		switch st {
+		case 0:
+			if e.kind != 'f' {
+				return false
+			}
+			st = 1
+		case 1:
+			if e.kind != 'v' || !e.stts {
+				return false
+			}
+			st = 2
+		case 2, 3:
+			switch e.kind {
+			case 'x':
+				if st == 3 && !(l.els[i-1].kind == 's' || (l.els[i-1].kind == 'x' && l.els[i-1].seg >= 0)) {
+					return false
+				}
+			case 's', 'e', 'o':
+				st = 3
+			case 'd':
+				if l.els[i-1].kind != 'o' {
+					return false
+				}
+			case 'r':
+				st = 4
+			default:
+				return false
+			}
+		case 4:
+			return false
+		}
+	}
+	return st >= 3
+}
+
+func decodeLayout(l *layout, data []byte) (f *mp4.File, class string) {
+	var err error
+	flags := mp4.DecNoFlags
+	if l.ism {
+		flags |= mp4.DecISMFlag
+	}
+	if l.som {
+		flags |= mp4.DecStartOnMoof
+	}
+	p := hx.Try(func() { f, err = mp4.DecodeFile(bytes.NewReader(data), mp4.WithDecodeFlags(flags)) })
+	if p != "" {
+		return nil, "panic"
+	}
+	if err != nil {
+		return nil, "err"
+	}
+	return f, "ok"
+}
+
+// refTrack: the track UpdateSidx should index (first video, else first audio, else first)
+func refTrack(l *layout) uint32 { return l.refTrack }
+
+// checkSidx: after UpdateSidx(add, nz) + Encode, the first sidx must tile the media.
+func checkSidx(l *layout, f *mp4.File, nz bool) {
+	var err error
+	idx := make(map[mp4.Box]int) // before UpdateSidx inserts a box into f.Children
+	for i, c := range f.Children {
+		idx[c] = i
+	}
+	p := hx.Try(func() { err = f.UpdateSidx(true, nz) })
+	if p != "" {
+		fail("File.UpdateSidx", "panic", shortWitness(l), "UpdateSidx panics: "+p)
+		return
+	}
+	if err != nil {
+		fail("File.UpdateSidx", "error", shortWitness(l), "UpdateSidx on a well-formed fragmented file: "+err.Error())
+		return
+	}
+	var buf bytes.Buffer
+	p = hx.Try(func() { err = f.Encode(&buf) })
+	if p != "" || err != nil {
+		fail("File.Encode", "after-UpdateSidx", shortWitness(l), fmt.Sprintf("Encode after UpdateSidx fails: %v %s", err, p))
+		return
+	}
+	enc := buf.Bytes()
+	sb, ok := scanTop(enc)
+	if !ok {
+		fail("File.Encode", "unscannable-after-UpdateSidx", shortWitness(l), "output is not a sequence of boxes")
+		return
+	}
+	// locate: top-level sidx boxes before the first media box, starts of the segments, end of media
+	var sidxs []sidxParsed
+	firstMedia := -1
+	endMedia := uint64(0)
+	for i, b := range sb {
+		switch b.typ {
+		case "sidx":
+			if firstMedia < 0 {
+				sidxs = append(sidxs, parseSidx(enc[b.pos:b.pos+b.size], b.pos))
+			}
+		case "styp", "emsg", "moof":
+			if firstMedia < 0 {
+				firstMedia = i
+			}
+		case "mdat":
+			endMedia = b.pos + b.size
+		}
+	}
+	if len(sidxs) == 0 {
+		fail("File.UpdateSidx", "no-sidx", shortWitness(l), "no top-level sidx before the media in the output")
+		return
+	}
+	// segment starts in the output: position of the first box of each decoded segment, found by its bytes
+	find := func(data []byte) (uint64, bool) {
+		for _, b := range sb {
+			if bytes.Equal(enc[b.pos:b.pos+b.size], data) {
+				return b.pos, true
+			}
+		}
+		return 0, false
+	}
+	var starts []uint64
+	var durs []uint64
+	var firstPT int64
+	for si, s := range f.Segments {
+		var first mp4.Box
+		switch {
+		case s.Styp != nil:
+			first = s.Styp
+		case len(s.Sidxs) > 0:
+			first = s.Sidxs[0]
+		case len(s.Fragments) > 0 && len(s.Fragments[0].Children) > 0:
+			first = s.Fragments[0].Children[0]
+		}
+		t, okk := idx[first]
+		if !okk {
+			return
+		}
+		// input bytes of that box (moof bytes are reproduced unchanged for the harness's fragments)
+		pos, found := find(l.origData(t))
+		if !found {
+			fail("File.Encode", "segment-first-box-missing", shortWitness(l), fmt.Sprintf("first box of segment %d not found byte-identically in the output", si))
+			return
+		}
+		starts = append(starts, pos)
+		// ground-truth duration of the reference track in this segment
+		d := uint64(0)
+		for fi, fr := range s.Fragments {
+			if fr.Moof == nil {
+				continue
+			}
+			e := l.els[idx[fr.Moof]]
+			for _, tr := range e.trafs {
+				if tr.track == refTrack(l) {
+					if si == 0 && fi == 0 {
+						firstPT = int64(tr.base) + int64(tr.cto0)
+					}
+					for _, trun := range tr.truns {
+						for _, x := range trun {
+							d += uint64(x)
+						}
+					}
+				}
+			}
+		}
+		durs = append(durs, d)
+	}
+	sx := sidxs[0]
+	w := shortWitness(l)
+	multi := ""
+	if len(sidxs) > 1 {
+		multi = "/multi-sidx"
+	}
+	if len(sx.refs) != len(starts) {
+		fail("File.UpdateSidx", "reference-count"+multi, w, fmt.Sprintf("%d references for %d segments", len(sx.refs), len(starts)))
+		return
+	}
+	anchor := sx.pos + sx.size + sx.fo
+	cur := anchor
+	for i, r := range sx.refs {
+		if cur != starts[i] {
+			cls := "reference-start" + multi
+			if len(sidxs) == 1 && hasSegmentSidxs(f) {
+				cls = "reference-start/segment-sidxs"
+			}
+			fail("File.UpdateSidx", cls, w, fmt.Sprintf("reference %d starts at %d (anchor %d), segment %d starts at %d", i, cur, anchor, i, starts[i]))
+			return
+		}
+		if uint64(r.dur) != durs[i] {
+			fail("File.findSegmentData", "duration", w, fmt.Sprintf("reference %d duration %d, reference track %d has %d in that segment", i, r.dur, refTrack(l), durs[i]))
+			return
+		}
+		if r.typ != 0 {
+			fail("File.fillSidx", "reference-type", w, "media reference with reference_type 1")
+			return
+		}
+		cur += uint64(r.size)
+	}
+	if cur != endMedia {
+		cls := "end-of-media" + multi
+		if len(sidxs) == 1 && hasSegmentSidxs(f) {
+			cls = "end-of-media/segment-sidxs"
+		}
+		fail("File.UpdateSidx", cls, w, fmt.Sprintf("references end at %d, media ends at %d", cur, endMedia))
+		return
+	}
+	wantEPT := uint64(0)
+	if nz {
+		wantEPT = uint64(firstPT)
+	}
+	if sx.ept != wantEPT {
+		fail("File.fillSidx", "earliest-presentation-time", w, fmt.Sprintf("ept %d, expected %d (nonZeroEPT=%v)", sx.ept, wantEPT, nz))
+	}
+	if sx.refID != refTrack(l) {
+		fail("File.fillSidx", "reference-id", w, fmt.Sprintf("reference_ID %d, the reference track (timescale and durations taken from it) is track %d", sx.refID, refTrack(l)))
+	}
+	if sx.timescale != l.refTimescale {
+		fail("File.fillSidx", "timescale", w, fmt.Sprintf("timescale %d, reference track has %d", sx.timescale, l.refTimescale))
+	}
+}
+
+func hasSegmentSidxs(f *mp4.File) bool {
+	for _, s := range f.Segments {
+		if len(s.Sidxs) > 1 {
+			return true
+		}
+	}
+	return false
+}
+
+func (l *layout) origData(i int) []byte { return l.els[i].data }
+
+func searchOne(l *layout) {
+	data := l.bytes()
+	evals++
+	f, class := decodeLayout(l, data)
+	if class != "ok" {
+		fail("DecodeFile", "rejects-wellformed/"+class, shortWitness(l), "a well-formed synthesized fragmented file is not decoded: "+class)
+		return
+	}
+	if !checkPartition(l, f) {
+		return
+	}
+	// segment mode re-encoding: byte-identical for canonical layouts
+	var buf bytes.Buffer
+	var err error
+	p := hx.Try(func() { err = f.Encode(&buf) })
+	evals++
+	if p != "" || err != nil {
+		fail("File.Encode", "segment-mode-fails", shortWitness(l), fmt.Sprintf("re-encoding fails: %v %s", err, p))
+		return
+	}
+	if canonical(l) && !bytes.Equal(buf.Bytes(), data) {
+		fail("File.Encode", "segment-mode-bytes", shortWitness(l), fmt.Sprintf("re-encoded %d bytes differ from the %d input bytes", buf.Len(), len(data)))
+		return
+	}
+	// every fragment byte-identical and in order, in any case
+	if !fragmentsInOrder(l, buf.Bytes()) {
+		fail("File.Encode", "fragments-order", shortWitness(l), "the moof/mdat boxes of the output are not the input's, byte-identical and in order")
+		return
+	}
+	for _, nz := range []bool{false, true} {
+		f2, _ := decodeLayout(l, data)
+		evals++
+		checkSidx(l, f2, nz)
+	}
+}
+
+func fragmentsInOrder(l *layout, enc []byte) bool {
+	sb, ok := scanTop(enc)
+	if !ok {
+		return false
+	}
+	var got [][]byte
+	for _, b := range sb {
+		if b.typ == "moof" || b.typ == "mdat" {
+			got = append(got, enc[b.pos:b.pos+b.size])
+		}
+	}
+	var want [][]byte
+	for _, e := range l.els {
+		if e.kind == 'o' || e.kind == 'd' {
+			want = append(want, e.data)
+		}
+	}
+	if len(got) != len(want) {
+		return false
+	}
+	for i := range got {
+		if !bytes.Equal(got[i], want[i]) {
+			return false
+		}
+	}
+	return true
+}
+
+var searchDelims = []string{"none", "styp", "stypsidx", "styptfra", "sidx", "sidx2", "sidxh", "tfra", "tfraf", "som"}
+
+func cmdSearch(seed uint64, n int) {
+	g := &gen{r: hx.NewRng(seed ^ 0x5ea7c4)}
+	// exhaustive small scopes: every delimiter kind x 1-3 segments x 1-2 fragments x emsg x all four flag combinations
+	for _, d := range searchDelims {
+		for nseg := 1; nseg <= 3; nseg++ {
+			for nfrag := 1; nfrag <= 2; nfrag++ {
+				for em := 0; em < 2; em++ {
+					l := g.structured(nseg, nfrag, 1+g.r.Intn(3), d, em == 1, true, g.r.Bool())
+					flagCombos(l, func(string) { searchOne(l) })
+				}
+			}
+		}
+	}
+	for i := 0; i < n; i++ {
+		d := searchDelims[g.r.Intn(len(searchDelims))]
+		l := g.structured(1+g.r.Intn(5), 1+g.r.Intn(4), 1+g.r.Intn(3), d, g.r.Intn(3) == 0, g.r.Bool(), g.r.Bool())
+		if g.r.Intn(3) == 0 {
+			l.ism, l.som = g.r.Bool(), g.r.Bool()
+		}
+		searchOne(l)
+	}
+	fmt.Fprintf(out, "EVALS\t%d\n", evals)
+}
+
+// ---------------------------------------------------------------- the add-sidx binary
+
+func cmdEmit(seed uint64, n int, dir string) {
+	g := &gen{r: hx.NewRng(seed ^ 0xadd51d)}
+	ds := []string{"none", "styp", "som", "stypsidx", "sidx"}
+	for i := 0; i < n; i++ {
+		d := ds[i%len(ds)]
+		l := g.structured(1+g.r.Intn(5), 1+g.r.Intn(4), 1+g.r.Intn(3), d, g.r.Intn(4) == 0, g.r.Bool(), g.r.Bool())
+		name := fmt.Sprintf("f%03d", i)
+		if err := os.WriteFile(filepath.Join(dir, name+".in.mp4"), l.bytes(), 0o644); err != nil {
+			panic(err)
+		}
+		var args []string
+		if l.som {
+			args = append(args, "-startSegOnMoof")
+		}
+		nz := g.r.Bool()
+		if nz {
+			args = append(args, "-nzEPT")
+		}
+		// ground truth for verify: reference track and per-fragment durations / first presentation time
+		var sb strings.Builder
+		fmt.Fprintf(&sb, "%s\t%d\t%d\t%d\t%d\t", d, b2i(l.som), b2i(nz), l.refTrack, l.refTimescale)
+		first := true
+		for _, e := range l.els {
+			if e.kind != 'o' {
+				continue
+			}
+			for _, tr := range e.trafs {
+				if tr.track == l.refTrack {
+					dsum := uint64(0)
+					for _, trun := range tr.truns {
+						for _, x := range trun {
+							dsum += uint64(x)
+						}
+					}
+					if !first {
+						sb.WriteByte(',')
+					}
+					first = false
+					fmt.Fprintf(&sb, "%d:%d:%d", e.seg, dsum, int64(tr.base)+int64(tr.cto0))
+				}
+			}
+		}
+		if err := os.WriteFile(filepath.Join(dir, name+".truth"), []byte(sb.String()), 0o644); err != nil {
+			panic(err)
+		}
+		fmt.Fprintf(out, "JOB\t%s\t%s\n", name, strings.Join(args, " "))
+	}
+}
+
+func cmdVerify(dir string) {
+	names, _ := filepath.Glob(filepath.Join(dir, "*.truth"))
+	sort.Strings(names)
+	runs := 0
+	for _, tn := range names {
+		base := strings.TrimSuffix(tn, ".truth")
+		truth, _ := os.ReadFile(tn)
+		in, _ := os.ReadFile(base + ".in.mp4")
+		outb, _ := os.ReadFile(base + ".out.mp4")
+		rcb, _ := os.ReadFile(base + ".rc")
+		runs++
+		p := strings.Split(string(truth), "\t")
+		w := fmt.Sprintf("add-sidx %s delim=%s som=%s nz=%s file=%s", filepath.Base(base), p[0], p[1], p[2], hx.Hex(in))
+		if len(w) > 12000 {
+			w = w[:12000] + "..."
+		}
+		if !strings.HasPrefix(string(rcb), "0\n") {
+			fail("examples/add-sidx", "exit-status", w, "add-sidx fails on a well-formed file: "+strings.ReplaceAll(string(rcb), "\n", " "))
+			continue
+		}
+		verifyAddSidx(w, p, in, outb)
+	}
+	fmt.Fprintf(out, "EVALS\t%d\n", runs)
+}
+
+func verifyAddSidx(w string, p []string, in, outb []byte) {
+	sbIn, ok1 := scanTop(in)
+	sbOut, ok2 := scanTop(outb)
+	if !ok1 || !ok2 {
+		fail("examples/add-sidx", "unscannable", w, "output is not a sequence of boxes")
+		return
+	}
+	// fragments byte-identical and in order
+	var a, b [][]byte
+	for _, x := range sbIn {
+		if x.typ == "moof" || x.typ == "mdat" {
+			a = append(a, in[x.pos:x.pos+x.size])
+		}
+	}
+	for _, x := range sbOut {
+		if x.typ == "moof" || x.typ == "mdat" {
+			b = append(b, outb[x.pos:x.pos+x.size])
+		}
+	}
+	same := len(a) == len(b)
+	for i := 0; same && i < len(a); i++ {
+		same = bytes.Equal(a[i], b[i])
+	}
+	if !same {
+		fail("examples/add-sidx", "fragments-order", w, "moof/mdat boxes differ between input and output")
+		return
+	}
+	// expected segments by the rule: styp groups, existing sidx groups (= intended), every moof with -startSegOnMoof, else one
+	type fr struct {
+		seg int
+		dur uint64
+		pt  int64
+	}
+	var frs []fr
+	for _, s := range strings.Split(p[5], ",") {
+		var f fr
+		fmt.Sscanf(s, "%d:%d:%d", &f.seg, &f.dur, &f.pt)
+		frs = append(frs, f)
+	}
+	delim, som, nz := p[0], p[1] == "1", p[2] == "1"
+	segOf := make([]int, len(frs))
+	for i := range frs {
+		switch {
+		case delim == "styp" || delim == "stypsidx" || delim == "sidx":
+			segOf[i] = frs[i].seg
+		case som:
+			segOf[i] = i
+		default:
+			segOf[i] = 0
+		}
+	}
+	nseg := segOf[len(segOf)-1] + 1
+	durs := make([]uint64, nseg)
+	for i, f := range frs {
+		durs[segOf[i]] += f.dur
+	}
+	// positions in the output: segment start = first styp / (emsg|moof) of the first fragment of the segment
+	var sidxs []sidxParsed
+	firstMedia := false
+	var starts []uint64
+	endMedia := uint64(0)
+	fragNo := -1
+	pendingStart := int64(-1)
+	for _, x := range sbOut {
+		switch x.typ {
+		case "sidx":
+			if !firstMedia {
+				sidxs = append(sidxs, parseSidx(outb[x.pos:x.pos+x.size], x.pos))
+			}
+		case "styp", "emsg":
+			firstMedia = true
+			if pendingStart < 0 {
+				pendingStart = int64(x.pos)
+			}
+		case "moof":
+			firstMedia = true
+			fragNo++
+			if pendingStart < 0 {
+				pendingStart = int64(x.pos)
+			}
+			if fragNo == 0 || segOf[fragNo] != segOf[fragNo-1] {
+				starts = append(starts, uint64(pendingStart))
+			}
+			pendingStart = -1
+		case "mdat":
+			endMedia = x.pos + x.size
+		}
+	}
+	if len(sidxs) == 0 {
+		fail("examples/add-sidx", "no-sidx", w, "no top-level sidx in the output")
+		return
+	}
+	sx := sidxs[0]
+	if len(sx.refs) != nseg {
+		fail("examples/add-sidx", "reference-count", w, fmt.Sprintf("%d references, %d segments expected", len(sx.refs), nseg))
+		return
+	}
+	cur := sx.pos + sx.size + sx.fo
+	for i, r := range sx.refs {
+		if cur != starts[i] {
+			cls := "reference-start"
+			if delim == "stypsidx" {
+				cls = "reference-start/segment-sidxs"
+			}
+			fail("examples/add-sidx", cls, w, fmt.Sprintf("reference %d starts at %d, segment starts at %d", i, cur, starts[i]))
+			return
+		}
+		if uint64(r.dur) != durs[i] {
+			fail("examples/add-sidx", "duration", w, fmt.Sprintf("reference %d duration %d, expected %d", i, r.dur, durs[i]))
+			return
+		}
+		cur += uint64(r.size)
+	}
+	if cur != endMedia {
+		cls := "end-of-media"
+		if delim == "stypsidx" {
+			cls = "end-of-media/segment-sidxs"
+		}
+		fail("examples/add-sidx", cls, w, fmt.Sprintf("references end at %d, media ends at %d", cur, endMedia))
+		return
+	}
+	want := uint64(0)
+	if nz {
+		want = uint64(frs[0].pt)
+	}
+	if sx.ept != want {
+		fail("examples/add-sidx", "earliest-presentation-time", w, fmt.Sprintf("ept %d, expected %d", sx.ept, want))
+	}
+}
